@@ -248,6 +248,12 @@ impl Property for C15 {
                 cx.label(name);
                 let oclient = axelar_soroban_std::interfaces::OwnableClient::new(env, &w.target);
                 for (i, a) in actions.iter().enumerate() {
+                    // (deterministic in target and position: saved cases keep their format) two months pass before some steps:
+                    // an open migration window, and the owner, must still be what they were
+                    if (*target as usize + i) % 3 == 2 {
+                        advance_ledgers(env, 17280 * 61);
+                        cx.label("two_months_pass_between_steps");
+                    }
                     let signer: Option<Address> = match a.who {
                         Who::Owner => Some(owner.clone()),
                         Who::Former => Some(former.clone()),
